@@ -347,7 +347,11 @@ def records3(m) -> List[Tuple[str, List[str]]]:
         y, mo, d, h, mi, s = ep["date"]
         p = m["month_pad"]
         two = (lambda x: f"{x:02d}") if p == "0" else (lambda x: f"{x:2d}")
-        r.append(("EPOCH3", [str(y), two(mo), two(d), two(h), two(mi), s, ep.get("flag", "0"), str(len(ep["sats"])), ep["clk"]]))
+        special = ep.get("special")  # event epoch (flag 2-5): the count is the number of special records that follow
+        nrec = len(ep["sats"]) if special is None else len(special)
+        r.append(("EPOCH3", [str(y), two(mo), two(d), two(h), two(mi), s, ep.get("flag", "0"), str(nrec), ep["clk"]]))
+        for k, c in special or []:
+            r.append((k, list(c)))
         for sat in ep["sats"]:
             r.append(("OBS3", [sat["sat"]] + [c for o in sat["obs"] for c in o]))
     return r
@@ -399,7 +403,7 @@ def records2(m) -> List[Tuple[str, List[str]]]:
     for ep in m["epochs"]:
         y, mo, d, h, mi, s = ep["date"]
         sats = [sat2(m, x["sat"]) for x in ep["sats"]]
-        r.append(("EPOCH2", [f"{y % 100:02d}", str(mo), str(d), str(h), str(mi), s, "0", str(len(sats)), ep["clk"]] + sats[:12]))
+        r.append(("EPOCH2", [f"{y % 100:02d}", str(mo), str(d), str(h), str(mi), s, ep.get("flag", "0"), str(len(sats)), ep["clk"]] + sats[:12]))
         for i in range(12, len(sats), 12):
             r.append(("EPOCH2C", sats[i:i + 12]))
         for sat in ep["sats"]:
@@ -833,6 +837,7 @@ def oracle(m, p, err, rate) -> List[Tuple[str, str]]:
     if meta.get("time_first_obs") != time_string(m["time_first"]):
         out.append((f"{V}:meta:time_first_obs", f"time_first_obs {meta.get('time_first_obs')!r} != {time_string(m['time_first'])!r}"))
     recs = records3(m) if m["fmt"] == 3 else records2(m)
+    recs = recs[:next(i for i, (k, _) in enumerate(recs) if k == "EOH")]  # the header (special records of event epochs are no header comments)
     if m["comments"] and meta.get("comment") != [c[0].strip() for k, c in recs if k == "COM"]:
         out.append((f"{V}:meta:comment", "header comments differ"))
     # --- per-system observation-type lists: the declared types that carry at least one value for that system
@@ -931,7 +936,50 @@ def gen_file3_model(rng, thorough: bool) -> Dict[str, Any]:
     m["comments"] = [(p, t.strip()) for p, t in m["comments"]]
     for ep in m["epochs"]:
         ep["flag"] = "1" if rng.random() < 0.15 else "0"
+    if rng.random() < 0.25:
+        insert_event_epochs(rng, m)
     return m
+
+
+NONBLANK = TEXT.replace(" ", "")
+
+
+def gen_special_records(rng) -> List[Tuple[str, List[str]]]:
+    """special records of an event epoch: header records whose label starts with a letter (cells without outer blanks);
+    comment texts sometimes with four digits in columns 3-6, where the epoch record has its year"""
+    recs: List[Tuple[str, List[str]]] = []
+    if rng.random() < 0.85:
+        k = rng.random()
+        if k < 0.4:
+            t = (rng.choice(NONBLANK) + rng.choice(TEXT) + f"{rng.choice([2018, 1999, 0, rng.randint(0, 9999)]):04d}" + rng.choice(["", " moved", " "]) + rtext(rng, 20)).strip()
+        else:
+            t = rtext(rng, 60)
+        recs.append(("COM", [t]))
+    if rng.random() < 0.4:
+        recs.append(("MNAME", [rng.choice(["NEW1", "AB2018", "x", "A 9080"])]))
+    if rng.random() < 0.4:
+        recs.append(("DHEN", [fixed(rng, -10, 10, 4, True) for _ in range(3)]))
+    if rng.random() < 0.15:
+        recs.append(("ANT", [rtext(rng, 20), rng.choice(["TRM55971.00     NONE", ""])]))
+    if not recs and rng.random() < 0.7:
+        recs.append(("COM", ["event"]))
+    return recs
+
+
+def insert_event_epochs(rng, m):
+    """1-2 event epochs (flag 2-5, no satellites, special records instead) after a normal epoch, at a time no other epoch has"""
+    used = {(tuple(ep["date"][:5]), Fraction(ep["date"][5])) for ep in m["epochs"]}
+    for _ in range(rng.randint(1, 2)):
+        pos = rng.randint(1, len(m["epochs"]))
+        head = list(m["epochs"][pos - 1]["date"][:5])
+        for _try in range(20):
+            sec = gen_seconds(rng, True)
+            if (tuple(head), Fraction(sec)) not in used:
+                break
+        else:
+            continue
+        used.add((tuple(head), Fraction(sec)))
+        m["epochs"].insert(pos, {"date": head + [sec], "clk": "", "flag": rng.choice("2345"), "sats": [], "special": gen_special_records(rng)})
 
 
 def opt_cell(text: str) -> str:
@@ -972,8 +1020,12 @@ def file3_tokens(m) -> List[str]:
         y, mo, d, h, mi, s = ep["date"]
         sec = s.strip()
         toks.append("E:" + ",".join([int_cell(str(y)), int_cell(two(mo)), int_cell(two(d)), int_cell(two(h)), int_cell(two(mi)),
-                                     f"{hexs(sec)}~{rs(Fraction(sec))}", int_cell(ep.get("flag", "0")), hexs(str(len(ep["sats"]))),
-                                     opt_cell(ep["clk"])]))
+                                     f"{hexs(sec)}~{rs(Fraction(sec))}", int_cell(ep.get("flag", "0")),
+                                     hexs(str(len(ep["sats"]) if ep.get("special") is None else len(ep["special"]))), opt_cell(ep["clk"])]))
+        for k, c in ep.get("special") or []:
+            if {**FILE3_CELLS, "MNAME": 1}.get(k) != len(c):
+                raise ValueError(f"special record {k} with {len(c)} cells is outside the file model")
+            toks.append(f"X:{k}:" + ",".join(hexs(x.strip()) for x in c))
         for sat in ep["sats"]:
             toks.append(f"R:{hexs(sat['sat'])}:" + ";".join(",".join(opt_cell(x) for x in o) for o in sat["obs"]))
     return toks
@@ -1009,6 +1061,15 @@ def stats_file3(ctx: Ctx, m, rate):
         ctx.count("file3 comment record", len(m["comments"]))
     kept = kept_epochs(m, rate)
     for ep in m["epochs"]:
+        if ep.get("special") is not None:
+            ctx.count("file3 event epoch")
+            ctx.count(f"file3 event epoch flag={ep['flag']}")
+            if ep["special"]:
+                ctx.count("file3 special record", len(ep["special"]))
+            for k, c in ep["special"]:
+                if k == "COM" and c[0][2:6].isdigit():
+                    ctx.count("file3 special comment with digits in the year columns")
+            continue
         if ep.get("flag", "0") == "1":
             ctx.count("file3 epoch flag=1")
         if not any(ep is k for k in kept):
@@ -1055,6 +1116,121 @@ def one_file3(ctx: Ctx, drv, wd: Workdir, m, rate, i: int):
     return p
 
 
+# ================================================================================================
+# the abstract RINEX 2 file (Spec/Rinex2ObsFile.lean, `c11 file2`)
+
+FILE2_CELLS = {"VER2": 3, "PGM": 3, "COM": 1, "MNAME": 1, "MNUM": 1, "OBSAG": 2, "REC": 3, "ANT": 2, "POS": 3, "DHEN": 3, "WAVE": 10,
+               "TYPES2": 10, "TYPES2C": 9, "INTERVAL": 1, "TFIRST": 7, "TLAST": 7, "RCVCLK": 1, "LEAP2": 1, "NSAT": 1}
+
+
+def gen_file2_model(rng, thorough: bool) -> Dict[str, Any]:
+    """gen_file2 with comment texts without leading blanks (a cell of the abstract file has no outer blanks) and every epoch with
+    its flag (0, or 1 = power failure between the previous and this epoch: the observation records follow as for flag 0)"""
+    m = gen_file2(rng, thorough)
+    m["comments"] = [(p, t.strip()) for p, t in m["comments"]]
+    for ep in m["epochs"]:
+        ep["flag"] = "1" if rng.random() < 0.15 else "0"
+    return m
+
+
+def file2_tokens(m) -> List[str]:
+    """the abstract file of model `m` in file order: every header record as records2 puts it (comments, MARKER NAME, # / TYPES OF
+    OBSERV with continuation records; short records padded with empty cells to the field count of the kind), END OF HEADER left
+    to the Lean writer, then epochs and satellite records from m["epochs"] (satellite identifiers as printed, not stripped)"""
+    toks: List[str] = []
+    for k, c in records2(m):
+        if k == "EOH":
+            break
+        n = FILE2_CELLS.get(k)
+        if n is None or len(c) > n:
+            raise ValueError(f"record {k} with {len(c)} cells is outside the file model")
+        cells = [x.strip() for x in c] + [""] * (n - len(c))
+        toks.append(f"P:{k}:" + ",".join(hexs(x) for x in cells))
+    for ep in m["epochs"]:
+        y, mo, d, h, mi, s = ep["date"]
+        sec = s.strip()
+        toks.append("E:" + ",".join([int_cell(f"{y % 100:02d}"), int_cell(str(mo)), int_cell(str(d)), int_cell(str(h)), int_cell(str(mi)),
+                                     f"{hexs(sec)}~{rs(Fraction(sec))}", int_cell(ep.get("flag", "0")), hexs(str(len(ep["sats"]))),
+                                     opt_cell(ep["clk"])]))
+        for sat in ep["sats"]:
+            id3 = sat2(m, sat["sat"])
+            if len(id3) != 3:
+                raise ValueError(f"satellite identifier {id3!r} is outside the file model")
+            toks.append(f"R:{hexs(id3)}:" + ";".join(",".join(opt_cell(x) for x in o) for o in sat["obs"]))
+    return toks
+
+
+def blank_lines2(sat) -> int:
+    """observation lines (5 observations each) of one satellite record that are entirely blank"""
+    obs = sat["obs"]
+    return sum(1 for j in range(0, len(obs), 5) if all(o == ["", "", ""] for o in obs[j:j + 5]))
+
+
+def stats_file2(ctx: Ctx, m, rate):
+    ctx.count("file2")
+    ctx.count(f"file2 style={m['style']}")
+    ctx.count("file2 rate=" + ("none" if rate is None else "set"))
+    ctx.count(f"file2 epochs={min(len(m['epochs']), 9)}")
+    if len(m["obstypes"]) > 9:
+        ctx.count("file2 types>9 (header continuation)")
+    if len(m["obstypes"]) > 5:
+        ctx.count("file2 types>5 (data continuation)")
+    if m["blank_sys"]:
+        ctx.count("file2 blank system id")
+    if m["wave_fact"]:
+        ctx.count("file2 wavelength record", 2 if m["wave_fact"]["prn"] else 1)
+    if m["comments"]:
+        ctx.count("file2 comment record", len(m["comments"]))
+    kept = kept_epochs(m, rate)
+    for ep in m["epochs"]:
+        if len(ep["sats"]) > 12:
+            ctx.count("file2 sats>12 (satellite-list continuation)")
+        if ep.get("flag", "0") == "1":
+            ctx.count("file2 epoch flag=1")
+        if not any(ep is k for k in kept):
+            ctx.count("file2 decimated epoch")
+        for sat in ep["sats"]:
+            nb = blank_lines2(sat)
+            if nb:
+                ctx.count("file2 all-blank observation line", nb)
+            if sat2(m, sat["sat"])[1] == " ":
+                ctx.count("file2 'G 7' numbering")
+
+
+def one_file2(ctx: Ctx, drv, wd: Workdir, m, rate, i: int):
+    """abstract RINEX 2 file F of `m`: render2(F) is the independent writer's text, wf(F), the instance
+    readData(fileLines F) = expected F, and expected2(F) after the post-processors is what the real parser delivers for that text"""
+    text = write_file(m)
+    case = {"file2": True, "i": i, "rate": rate, "style": m["style"]}
+    cont = len(m["obstypes"]) > 5 or any(len(e["sats"]) > 12 for e in m["epochs"])
+    flagged = any(ep.get("flag", "0") != "0" for ep in m["epochs"])
+    ctx.case(common.digest([text, rate, "file2"]),
+             nontrivial=(max(len(e["sats"]) for e in m["epochs"]) >= 2 and (cont or rate is not None or flagged)))
+    stats_file2(ctx, m, rate)
+    p, err, exc = run_impl(wd, 2, text, rate)
+    impl = err if p is None else canon_impl(p)
+    if drv is not None:
+        r = "-" if not rate else rs(Fraction(str(rate)))
+        toks = file2_tokens(m)
+        raw = drv.ask1(f"c11 file2 {r} {m['style']} " + " ".join(toks))
+        ans = None if raw == "bad-op" else parse_file3_answer(raw)
+        if ans is None:
+            ctx.disagree("file2: request understood by the driver", {**case, "tokens": toks[:40]}, raw[:200], "wf=… inst=… text=… | …")
+        else:
+            if ans["text"] != text:
+                k, g, w = first_diff_line(ans["text"], text)
+                ctx.disagree("render2(F) = independent writer (file2)", {**case, "line": k}, g, w)
+            if ans["wf"] != "1":
+                ctx.disagree("file2: wf(F)", {**case, "tokens": toks[:60], "file_text": text}, f"wf={ans['wf']}", "wf=1 (the generator writes well-formed files)")
+            if ans["inst"] != "1":
+                ctx.disagree("file2: instance readData(fileLines F) = expected F", {**case, "tokens": toks[:60], "file_text": text},
+                             f"inst={ans['inst']}", "inst=1")
+            compare_model_impl(ctx, "expected2(F) = real parser (file2)", case, ans["out"], impl)
+    for key, what in oracle(m, p, err, rate):
+        ctx.violate(key, what, {**case, "model": m, "rate": rate, "file_text": text})
+    return p
+
+
 def pick_rate(rng, m, decimal: bool = False):
     if decimal:
         return rng.choice(DECIMAL_RATES)
@@ -1085,11 +1261,17 @@ def run(ctx: Ctx):
                 "oracle-only block); written by an independent Python writer; non-trivial = at least two satellites and a continuation "
                 "line (header or data) or a sampling rate; distinct by file text + rate. "
                 "Block file3: RINEX 3 models restricted to the record kinds of the theorem's abstract file (Spec/Rinex3ObsFile.lean: no "
-                "phase-shift / GLONASS slot / bias records, comments without leading blanks), epoch flag 0 or 1 (15 %), are handed to the driver "
+                "phase-shift / GLONASS slot / bias records, comments without leading blanks), epoch flag 0 or 1 (15 %), in 25 % of the files 1-2 event epochs (flag 2-5 followed by "
+                "special records COMMENT / MARKER NAME / ANTENNA: DELTA H/E/N / ANT # / TYPE instead of satellites), are handed to the driver "
                 "as the abstract file F (cells as printed + the values computed here with Fraction): render(F) must be the independent writer's "
                 "text byte for byte, wf(F) and the theorem instance readData(fileLines F) = expected F must hold, expected(F) after the "
                 "post-processors must be the real parser's output for that text, and the oracle compares the parser with the model; "
-                "non-trivial there = two satellites and a header continuation line, a sampling rate or a flagged epoch")
+                "non-trivial there = two satellites and a header continuation line, a sampling rate or a flagged epoch. "
+                "Block file2: the same for RINEX 2 models (every header record of the writer incl. wavelength factors and # / TYPES OF "
+                "OBSERV continuation, comments without leading blanks, epoch flag 0 or 1 (15 %), satellite identifiers as printed: 'G07', "
+                "' 07', 'G 7') as the abstract file of Spec/Rinex2ObsFile.lean: render2(F) = writer's text byte for byte, wf(F), the "
+                "instance readData(fileLines F) = expected F, expected2(F) after the post-processors = the real parser's output, and the "
+                "oracle; non-trivial there = two satellites and a data / satellite-list continuation line, a sampling rate or a flagged epoch")
     ctx.trusted += ["float(text) is correctly rounded (CPython); the model keeps exact decimals, the harness compares float(Fraction)",
                     "'{:010.7f}'.format(float(second)) of a 7-decimal text reproduces the text (measured on every epoch)",
                     "the sampling test |obs_sec - round(obs_sec/rate)*rate| >= 5e-8 is modelled in exact rationals; the double computation "
@@ -1152,6 +1334,10 @@ def run(ctx: Ctx):
         for i in range(ctx.budget(120, 1500)):
             m = gen_file3_model(rng, ctx.thorough)
             one_file3(ctx, drv, wd, m, pick_rate(rng, m), i)
+        # the abstract RINEX 2 file (Spec/Rinex2ObsFile.lean): render2, wf, instance, expected2
+        for i in range(ctx.budget(100, 1200)):
+            m = gen_file2_model(rng, ctx.thorough)
+            one_file2(ctx, drv, wd, m, pick_rate(rng, m), i)
     finally:
         wd.close()
     ctx.traces = ctx.evaluations
